@@ -50,3 +50,10 @@ claim("C09", "DESIGN.md 5/C09", "Lean 4 heap-model theorems (execH_preserves, ex
       "step leaves every existing object visibly unchanged provided fuzzy inputs are fuzzy values (C04); execH_refines: the result object is exec's result. "
       "Which bodies allocate fresh arrays is a modelling fact validated by the correspondence (aliasing facts + snapshots of inputs after each execute, sequences of up to 8 consumers).",
       TB)
+
+claim("C20", "DESIGN.md 5/C20", "Lean 4 theorems by induction on the parameter tree + differential correspondence of clean and clean∘clean + type/purity oracles",
+      "Theorems in MPilot.C20: clean_typed (documented type for every parameter class, lists item-wise), clean_err_is_param_error (a failing clean raises one of "
+      "the seven parameter errors, never anything else), clean_idempotent (cleaning a cleaned value returns it; relative paths under an absolute working directory - "
+      "the witness rel/rel/a.csv shows the premise is needed), integers stay integers, boolean forms. Determinism is definitional; purity (raw argument and program untouched) "
+      "cannot be a theorem about a pure model and is decided by snapshot oracles on the real classes.",
+      TB + "Python int()/float()/str() are modelled on ASCII text (sign, underscores, exponent); inf/nan, float and container text forms are outside the model (counted).")
